@@ -3,8 +3,17 @@
 package c05
 
 import (
+	"context"
+	"crypto/x509"
 	"fmt"
+	"github.com/notaryproject/notation-core-go/revocation"
+	"github.com/notaryproject/notation-core-go/revocation/crl"
+	"github.com/notaryproject/notation-core-go/revocation/result"
+	"math/big"
 	"strings"
+	"sync"
+	"time"
+	"verif/harness/pki"
 
 	"verif/harness/core"
 	"verif/harness/props"
@@ -126,6 +135,74 @@ func nontrivial(c config, behs []string) bool {
 	return false
 }
 
+// liveExpiry watches an authentic, clean CRL (base, or the delta next to a
+// fresh base) cross its next-update instant in real time. The workload uses
+// the clock, the verdict does not depend on speed: a check that BEGAN after
+// the instant and still came out OK accepted an expired list.
+func liveExpiry(r *core.Run, which string) {
+	fam := sims.Fam(2, "p256", false)
+	sh := sims.HTTPShape(0, 1)
+	kit := fam.KitFor(0, sh, sims.Shape{})
+	T := time.Now().Truncate(time.Second).Add(2 * time.Second)
+	mk := func(delta, expiring bool) *x509.RevocationList {
+		l := &pki.CRL{IssuerRawName: kit.Issuer.RawSubject, SignKey: kit.IKey, NextUpdate: pki.Future, Number: big.NewInt(700)}
+		if delta {
+			l.Number, l.DeltaInd = big.NewInt(701), big.NewInt(700)
+		}
+		if expiring {
+			l.NextUpdate = T
+		}
+		return pki.MustParseCRL(pki.BuildCRL(l))
+	}
+	b := &crl.Bundle{BaseCRL: mk(false, which == "base")}
+	if which == "delta" {
+		b.DeltaCRL = mk(true, true)
+	}
+	ft := sims.NewFetcher()
+	ft.Bundles[fam.URL(0, "d", 0, "http")] = b
+	v, err := revocation.NewWithOptions(revocation.Options{OCSPHTTPClient: sims.DeadClient(), CRLFetcher: ft})
+	if err != nil {
+		r.Inconclusive("live expiry: " + err.Error())
+		return
+	}
+	chain := fam.Chain([]sims.Shape{sh, {}})
+	okBefore, inWindow := 0, 0
+	for time.Now().Before(T.Add(1300 * time.Millisecond)) {
+		began := time.Now()
+		var rs []*result.CertRevocationResult
+		var cerr error
+		if p := core.Guard(func() {
+			rs, cerr = v.ValidateContext(context.Background(), revocation.ValidateContextOptions{CertChain: chain})
+		}); p != nil {
+			r.Count("panicked", 1)
+			return
+		}
+		r.Eval(1)
+		ok := cerr == nil && len(rs) == 2 && rs[0] != nil && rs[0].Result == result.ResultOK
+		switch {
+		case !began.After(T):
+			if ok {
+				okBefore++
+			}
+		case began.Before(T.Add(time.Second)):
+			inWindow++
+		}
+		if ok && began.After(T) {
+			r.Violation("expired-list-accepted-at-the-boundary:"+which, fmt.Sprintf("a check that began %v after the %s list's next-update instant came out OK", began.Sub(T), which),
+				map[string]any{"note": "live-expiry observation: re-run the check", "began_after_T_ns": began.Sub(T).Nanoseconds()})
+			return
+		}
+		time.Sleep(300 * time.Microsecond)
+	}
+	r.Count("live-expiry-ok-before-the-instant", okBefore)
+	r.Count("live-expiry-checks-within-a-second-after", inWindow)
+	if inWindow == 0 || okBefore == 0 {
+		r.Inconclusive("live expiry (" + which + "): nothing observed on both sides of the boundary (machine too loaded)")
+	} else {
+		r.Nontrivial("live-expiry " + which)
+	}
+}
+
 func run(r *core.Run) int {
 	r.Rule = "CRL behaviour alphabet assigned to 1..3 distribution points in every order x {caller-supplied fetcher, real HTTPFetcher over the simulated network} x certificate with/without freshest-CRL extension x issuer with/without cRLSign x {EC, RSA issuer}; pairs of points that differ only in their query string (cache on/off); " +
 		"non-trivial = some point is not clean, or a delta is present, or the certificate carries a freshest-CRL pointer; distinct by scenario descriptor"
@@ -200,6 +277,12 @@ func run(r *core.Run) int {
 			}
 		}
 	}
+	var live sync.WaitGroup
+	for _, w := range []string{"base", "delta"} {
+		w := w
+		live.Add(1)
+		go func() { defer live.Done(); liveExpiry(r, w) }()
+	}
 	r.Set("alphabet_fetcher", sims.CRLBehaviours)
 	r.Set("alphabet_http_extra", sims.CRLHTTPOnly)
 	r.Parallel(len(jobs), func(i int) {
@@ -217,6 +300,7 @@ func run(r *core.Run) int {
 			r.Sample("result-"+out.Results[0].Result.String()+"-"+j.c.Route, map[string]any{"scenario": sc.Desc(), "result": sims.CanonString(sims.Canon(out.Results))})
 		}
 	})
+	live.Wait()
 	r.Set("caller_owned_bundles_found_modified", len(sims.ModifiedBundles()))
 	return r.Finish(r.Pick(1500, 50000),
 		core.Require{Counter: "result-OK", Why: "no execution ended OK"},
